@@ -21,7 +21,8 @@ class C18(Prop):
                   "minimality of k_alternative_partition_brut_force and its None contract are compared with these on every "
                   "run for every k (tested, not proved)")
     level_note = "Lean kernel + standard axioms for checker / brute force; the partition algorithms are outside Lean"
-    technique = "Lean-verified partition checker and brute-force minimum; differential correspondence"
+    technique = ("Lean 4 proofs of validity for statement-level models of both partition functions + Lean-verified partition "
+                 "checker and brute-force minimum; model/implementation correspondence check; minimality is refuted (D19)")
     theorems = [
         "PrefVerif.C12DP.partition_cert",
         "PrefVerif.C12DP.partition_perm",
